@@ -523,6 +523,9 @@ class FSM(object):
         """Internal method that close the connection if a valid BGP protocol
         instance exists.
         """
+        if self.bgp_peering is not None:
+            # drop a TCP connection attempt that is still pending
+            self.bgp_peering.abort_connect()
         if self.protocol is not None:
             self.protocol.closeConnection()
             self.connect_retry_counter = 0
